@@ -48,30 +48,61 @@ type setIDCall struct {
 	call *ast.CallExpr
 	recv ast.Expr // x in x.SetID(v)
 	arg  ast.Expr
+	// the ID-setting calls inside the wrapper(s) this call goes through (setAutoID(n, id) → n.SetID(id))
+	inner []setIDCall
 }
 
 func (c *Ctx) setIDCalls() []setIDCall {
-	var out []setIDCall
+	if v, ok := c.memo["setIDCalls"]; ok {
+		return v.([]setIDCall)
+	}
+	sums := c.idSetSummaries()
+	// every ID-setting call of package ir, by enclosing function
+	var all []setIDCall
 	c.eachFunc(pkgIR, func(p *packages.Package, fd *ast.FuncDecl, fn *types.Func) {
 		if fn.Name() == "SetID" {
 			return
 		}
 		ast.Inspect(fd.Body, func(n ast.Node) bool {
 			call, ok := n.(*ast.CallExpr)
-			if !ok || len(call.Args) != 1 {
+			if !ok {
 				return true
 			}
-			se, ok := unparen(call.Fun).(*ast.SelectorExpr)
-			if !ok || se.Sel.Name != "SetID" {
-				return true
+			if obj, id, ok := c.idSetCall(p.TypesInfo, call); ok {
+				all = append(all, setIDCall{fd: fd, fn: fn, call: call, recv: obj, arg: id})
 			}
-			if _, ok := p.TypesInfo.Selections[se]; !ok {
-				return true
-			}
-			out = append(out, setIDCall{fd, fn, call, se.X, call.Args[0]})
 			return true
 		})
 	})
+	// a call inside a wrapper (a function that passes its own parameters on) is represented by
+	// the wrapper's call sites; the inner levels are kept for the guard test
+	var out []setIDCall
+	for _, sc := range all {
+		if sums[sc.fn] != nil {
+			continue
+		}
+		// collect the inner levels: the wrapper bodies this call leads to
+		cur := sc
+		for depth := 0; depth < 3; depth++ {
+			callee := calleeOf(c.pkg(pkgIR).TypesInfo, cur.call)
+			if callee == nil || sums[callee] == nil {
+				break
+			}
+			var next *setIDCall
+			for i := range all {
+				if all[i].fn == callee {
+					next = &all[i]
+				}
+			}
+			if next == nil {
+				break
+			}
+			sc.inner = append(sc.inner, *next)
+			cur = *next
+		}
+		out = append(out, sc)
+	}
+	c.memo["setIDCalls"] = out
 	return out
 }
 
@@ -157,6 +188,83 @@ func holdsReceiverMutex(info *types.Info, fd *ast.FuncDecl) (bool, string) {
 	return true, mu
 }
 
+// idStoreGuarded: the ID-setting call is guarded by a change test — an ancestor `if` comparing
+// the current ID with the stored value, or the unassigned-sentinel idiom.
+func idStoreGuarded(info *types.Info, sc setIDCall) (bool, string) {
+	// guard: ancestor `if` comparing the current ID with the stored value, or the unassigned-sentinel idiom
+	pm := buildParents(sc.fd.Body)
+	guarded, how := false, ""
+	recvS, argS := exprString(sc.recv), exprString(sc.arg)
+	// locals that hold the current ID (cur := n.ID()) read like the call itself
+	curLocals := map[string]bool{}
+	ast.Inspect(sc.fd.Body, func(n ast.Node) bool {
+		if as, ok := n.(*ast.AssignStmt); ok && as.Pos() < sc.call.Pos() && len(as.Lhs) == 1 && len(as.Rhs) == 1 {
+			if strings.ReplaceAll(exprString(as.Rhs[0]), " ", "") == recvS+".ID()" {
+				if id, ok := as.Lhs[0].(*ast.Ident); ok {
+					curLocals[id.Name] = true
+				}
+			}
+		}
+		return true
+	})
+	var node ast.Node = sc.call
+	for node != nil && !guarded {
+		par := pm[node]
+		if is, ok := par.(*ast.IfStmt); ok && is.Body == node {
+			cond := strings.ReplaceAll(exprString(is.Cond), " ", "")
+			for l := range curLocals {
+				cond = regexp.MustCompile(`\b`+regexp.QuoteMeta(l)+`\b`).ReplaceAllString(cond, recvS+".ID()")
+			}
+			for _, pat := range []string{recvS + ".ID()!=" + argS, argS + "!=" + recvS + ".ID()"} {
+				if strings.Contains(cond, strings.ReplaceAll(pat, " ", "")) {
+					guarded, how = true, "if "+exprString(is.Cond)
+				}
+			}
+		}
+		// unassigned-sentinel idiom in the enclosing block: `id := x.ID(); if id != -1 { continue }` before the call
+		if blk, ok := par.(*ast.BlockStmt); ok {
+			var idVar string
+			for _, st := range blk.List {
+				if st.Pos() >= sc.call.Pos() {
+					break
+				}
+				if as, ok := st.(*ast.AssignStmt); ok && len(as.Lhs) == 1 && len(as.Rhs) == 1 && strings.ReplaceAll(exprString(as.Rhs[0]), " ", "") == recvS+".ID()" {
+					idVar = exprString(as.Lhs[0])
+				}
+				if is, ok := st.(*ast.IfStmt); ok && is.Else == nil && len(is.Body.List) == 1 {
+					cond := strings.ReplaceAll(exprString(is.Cond), " ", "")
+					// `id != -1` on a local holding recv.ID(), or `recv.ID() != -1` itself; the
+					// sentinel may be a named constant
+					sentinel := false
+					if be, ok := unparen(is.Cond).(*ast.BinaryExpr); ok && be.Op == token.NEQ {
+						if tv := info.Types[be.Y]; tv.Value != nil && tv.Value.String() == "-1" {
+							lhs := strings.ReplaceAll(exprString(be.X), " ", "")
+							if (idVar != "" && lhs == idVar) || lhs == recvS+".ID()" {
+								sentinel = true
+								if idVar == "" {
+									idVar = recvS + ".ID()"
+								}
+							}
+						}
+					}
+					if sentinel || (idVar != "" && cond == idVar+"!=-1") {
+						switch b := is.Body.List[0].(type) {
+						case *ast.BranchStmt:
+							if b.Tok == token.CONTINUE {
+								guarded, how = true, fmt.Sprintf("skipped unless %s == -1 (still unassigned)", idVar)
+							}
+						case *ast.ReturnStmt:
+							guarded, how = true, fmt.Sprintf("returns unless %s == -1 (still unassigned)", idVar)
+						}
+					}
+				}
+			}
+		}
+		node = par
+	}
+	return guarded, how
+}
+
 func ruleRACE2(c *Ctx) []Obligation {
 	var obs []Obligation
 	info := c.pkg(pkgIR).TypesInfo
@@ -183,77 +291,14 @@ func ruleRACE2(c *Ctx) []Obligation {
 			obs = append(obs, o)
 			continue
 		}
-		// guard: ancestor `if` comparing the current ID with the stored value, or the unassigned-sentinel idiom
-		pm := buildParents(sc.fd.Body)
-		guarded, how := false, ""
-		recvS, argS := exprString(sc.recv), exprString(sc.arg)
-		// locals that hold the current ID (cur := n.ID()) read like the call itself
-		curLocals := map[string]bool{}
-		ast.Inspect(sc.fd.Body, func(n ast.Node) bool {
-			if as, ok := n.(*ast.AssignStmt); ok && as.Pos() < sc.call.Pos() && len(as.Lhs) == 1 && len(as.Rhs) == 1 {
-				if strings.ReplaceAll(exprString(as.Rhs[0]), " ", "") == recvS+".ID()" {
-					if id, ok := as.Lhs[0].(*ast.Ident); ok {
-						curLocals[id.Name] = true
-					}
-				}
+		guarded, how := idStoreGuarded(info, sc)
+		for _, in := range sc.inner {
+			if guarded {
+				break
 			}
-			return true
-		})
-		var node ast.Node = sc.call
-		for node != nil && !guarded {
-			par := pm[node]
-			if is, ok := par.(*ast.IfStmt); ok && is.Body == node {
-				cond := strings.ReplaceAll(exprString(is.Cond), " ", "")
-				for l := range curLocals {
-					cond = regexp.MustCompile(`\b`+regexp.QuoteMeta(l)+`\b`).ReplaceAllString(cond, recvS+".ID()")
-				}
-				for _, pat := range []string{recvS + ".ID()!=" + argS, argS + "!=" + recvS + ".ID()"} {
-					if strings.Contains(cond, strings.ReplaceAll(pat, " ", "")) {
-						guarded, how = true, "if "+exprString(is.Cond)
-					}
-				}
-			}
-			// unassigned-sentinel idiom in the enclosing block: `id := x.ID(); if id != -1 { continue }` before the call
-			if blk, ok := par.(*ast.BlockStmt); ok {
-				var idVar string
-				for _, st := range blk.List {
-					if st.Pos() >= sc.call.Pos() {
-						break
-					}
-					if as, ok := st.(*ast.AssignStmt); ok && len(as.Lhs) == 1 && len(as.Rhs) == 1 && strings.ReplaceAll(exprString(as.Rhs[0]), " ", "") == recvS+".ID()" {
-						idVar = exprString(as.Lhs[0])
-					}
-					if is, ok := st.(*ast.IfStmt); ok && is.Else == nil && len(is.Body.List) == 1 {
-						cond := strings.ReplaceAll(exprString(is.Cond), " ", "")
-						// `id != -1` on a local holding recv.ID(), or `recv.ID() != -1` itself; the
-						// sentinel may be a named constant
-						sentinel := false
-						if be, ok := unparen(is.Cond).(*ast.BinaryExpr); ok && be.Op == token.NEQ {
-							if tv := info.Types[be.Y]; tv.Value != nil && tv.Value.String() == "-1" {
-								lhs := strings.ReplaceAll(exprString(be.X), " ", "")
-								if (idVar != "" && lhs == idVar) || lhs == recvS+".ID()" {
-									sentinel = true
-									if idVar == "" {
-										idVar = recvS + ".ID()"
-									}
-								}
-							}
-						}
-						if sentinel || (idVar != "" && cond == idVar+"!=-1") {
-							switch b := is.Body.List[0].(type) {
-							case *ast.BranchStmt:
-								if b.Tok == token.CONTINUE {
-									guarded, how = true, fmt.Sprintf("skipped unless %s == -1 (still unassigned)", idVar)
-								}
-							case *ast.ReturnStmt:
-								guarded, how = true, fmt.Sprintf("returns unless %s == -1 (still unassigned)", idVar)
-							}
-						}
-					}
-				}
-			}
-			node = par
+			guarded, how = idStoreGuarded(info, in)
 		}
+		recvS, argS := exprString(sc.recv), exprString(sc.arg)
 		if guarded {
 			o.Detail = fmt.Sprintf("under %s; %s", mu, how)
 		} else {
@@ -468,10 +513,12 @@ func ruleOBS5(c *Ctx) []Obligation {
 				continue
 			}
 			// the ID field: the one SetID writes
-			idField := ""
-			for _, e := range c.subjectFields(setID, -1) {
-				if e.Write {
-					idField = e.Field
+			idField := c.idFieldOf(setID)
+			if idField == "" {
+				for _, e := range c.subjectFields(setID, -1) {
+					if e.Write {
+						idField = e.Field
+					}
 				}
 			}
 			o := Obligation{Key: typeKey(n) + ".SetName clears the ID", Pos: c.pos(c.funcDecl(setName).Pos()), Verdict: VIOL}
